@@ -117,6 +117,9 @@ func spawnRun(spec batchSpec, tier string, seed uint64, planFile string, keepLog
 	if spec.Bin == "fg" {
 		exe = filepath.Join(verifRoot(), "bin", "zsim.fg")
 	}
+	if spec.Bin == "fgrace" {
+		exe = filepath.Join(verifRoot(), "bin", "zsim.fg.race")
+	}
 	var cmd *exec.Cmd
 	var straceOut string
 	if spec.Strace {
@@ -128,7 +131,7 @@ func spawnRun(spec batchSpec, tier string, seed uint64, planFile string, keepLog
 		cmd = exec.CommandContext(ctx, exe, args...)
 	}
 	env := append(os.Environ(), "ZSIM_BINHASH="+binHashOf(exe))
-	if spec.Bin == "fg" {
+	if spec.Bin == "fg" || spec.Bin == "fgrace" {
 		plain := filepath.Join(verifRoot(), "bin", "zsim")
 		env = append(env, "ZSIM_REF_EXE="+plain, "ZSIM_REF_BINHASH="+binHashOf(plain))
 	}
@@ -467,6 +470,9 @@ func driveMain(args []string) {
 		}
 		deadline = time.Now().Add(time.Duration(float64(left) * b.Share / shareLeft))
 		shareLeft -= b.Share
+		if b.Bin == "fgrace" && b.Runs == 0 && os.Getenv("ZSIM_JITTER") != "" {
+			b.Runs = 24 // experiments: the perturbation batch in the quick tier
+		}
 		if b.Runs == 0 && !(b.Bin == "fg" && os.Getenv("ZSIM_FINEGRAIN") != "") {
 			continue // batch not part of this tier
 		}
